@@ -41,6 +41,7 @@ let engines : (string * (z list -> (z list * z list) list -> verdict)) list = [
   ("codecinl", chk_codecinl);
   ("itermap", chk_itermap);
   ("mapbatch", chk_mapbatch);
+  ("alias", chk_alias);
 ]
 
 let () =
